@@ -382,7 +382,7 @@ impl Gen {
                         a.push(x)
                     }
                 }
-                2 if !sc.canons.is_empty() => {
+                2 if !sc.canons.is_empty() && (sc.cmaps.is_empty() || rng.chance(60)) => {
                     let c = sc.canons[rng.below(sc.canons.len())].clone();
                     a.push(Arg::Canon { name: c, lens: vec![] });
                 }
@@ -822,12 +822,20 @@ impl Gen {
                 } else {
                     sc.maps[rng.below(sc.maps.len())].clone()
                 };
-                let key = match rng.below(3) {
+                // string and numeric keys that render alike ("1" and 1) are distinct keys of one map
+                let key = match rng.below(4) {
                     0 => Arg::Str(format!("k{}", rng.below(3))),
                     1 => Arg::Num(rng.below(3) as i64),
+                    2 => Arg::Str(format!("{}", rng.below(3))),
                     _ => Arg::Str(format!("k{}", rng.below(3))),
                 };
-                let val = Arg::Str(format!("mv{}", self.id()));
+                // values with their own tetraplets (call results) as well as literals
+                let plain: Vec<&Var> = sc.scalars.iter().filter(|v| v.fold_depth == 0 && v.shape != Shape::CanonArr).collect();
+                let val = if !plain.is_empty() && rng.chance(50) {
+                    Arg::Var { name: plain[rng.below(plain.len())].name.clone(), lens: vec![] }
+                } else {
+                    Arg::Str(format!("mv{}", self.id()))
+                };
                 Node::ApMap { key, val, dst: m }
             }
             14 if fl.maps && fl.canon && !sc.maps.is_empty() => {
